@@ -43,6 +43,8 @@ type FaultPlan struct {
 	// FiredKind/FiredLen describe the failed call.
 	FiredKind IOKind
 	Count     [4]int // calls per kind
+	OnCall    func(IOKind) // observer of every counted call
+	FiredOp   int          // index of the op during which the fault fired
 }
 
 var errInjected = errors.New("verif: injected file error")
@@ -86,6 +88,9 @@ func (m *MemFile) tick(kind IOKind, off int64, n int, data []byte) (rec *IORec, 
 		m.Plan.Calls++
 		m.Plan.Count[kind]++
 		seq = m.Plan.Calls
+		if m.Plan.OnCall != nil {
+			m.Plan.OnCall(kind)
+		}
 		if m.Plan.FailAt == seq {
 			fail = true
 			m.Plan.Fired = true
